@@ -176,7 +176,7 @@ func applyTarget(target []byte, st *state.State, ca cache.Memory, ctx context.Co
 		if top, _ := st.Where(); top == sym {
 			return sym, idx, fmt.Errorf("already at node '%s'", sym)
 		}
-		if st.Depth() >= state.MaxLevel {
+		if st.Depth()+1 >= state.MaxLevel {
 			return sym, idx, fmt.Errorf("max levels exceeded (%d)", state.MaxLevel)
 		}
 		err := st.Down(sym)
